@@ -43,6 +43,8 @@ def check(ctx: Ctx):
     ctx.rule("R-END.mgt", "the orchestrator marks the computation finished and requests the stop exactly when every computation of the graph is finished")
     ctx.rule("R-END.stop", "stop request reaches every agent; each agent answers and stops; the run returns once all agents have left")
     ctx.rule("R-END.dpop", "every DPOP computation selects its value and calls finished() once its phase completes")
+    ctx.rule("R-START", "deployment waits for every agent named by the distribution; the run waits for every computation of the distribution")
+    ctx.rule("R-INFINITY", "the infinity used for the reported cost/violation is the one given to the solve/run entry point, forwarded link by link")
     ctx.rule("R-STATUS", "the run is reported FINISHED unless the timeout fired or the user interrupted: only those write the status")
     ctx.rule("R-VALUE", "selected values travel (agent, computation, value, cost, cycle) to the orchestrator and are reported with the DCOP's own accounting")
     msgs = repo.message_types()
@@ -179,6 +181,10 @@ def check(ctx: Ctx):
     wsa = repo.func(ORC, "AgentsMgt.wait_stop_agents")
     yes, _ = _always(wsa, lambda c: norm(c.func) == "self._all_agt_stopped.wait")
     ctx.check(yes, "R-END.stop", "wait_stop_agents blocks on the all-agents-stopped event", wsa, wsa.node, "")
+
+    # ---- R-START: the run only starts once every agent / computation of the distribution is there ------
+    _start_gates(ctx, repo)
+    _infinity_chain(ctx, repo)
 
     # ---- R-END.dpop ----------------------------------------------------------------------------------
     svf = repo.func(DPOP, "DpopAlgo.select_value_and_finish")
@@ -327,6 +333,188 @@ def check(ctx: Ctx):
     ctx.undecided = "optimality of the DPOP assignment (C01 clauses); delivery under every thread schedule (C21 confinement, C19 FIFO)"
 
 
+def _subset_gate(f, set_call, ff, want_all, want_known):
+    """Is `set_call` dominated by `every element of <want_all> is in <want_known>`?
+    Recognised forms (locals are followed):
+      missing = []; for a in ALL: try: lookup(a) except Unknown: missing.append(a) ... if not missing
+      missing = [a for a in ALL if a not in KNOWN] / set(ALL) - set(KNOWN) ... if not missing
+      if all(a in KNOWN for a in ALL) / set(ALL) <= set(KNOWN) / set(ALL).issubset(KNOWN)
+    want_all / want_known are predicates on normalised expression text."""
+    from ..flow import resolve_local, local_defs
+    facts = facts_at(ff, set_call)
+
+    def is_all(e):
+        e = resolve_local(f, e)
+        t = norm(e)
+        if want_all(t):
+            return True
+        return isinstance(e, ast.Call) and isinstance(e.func, ast.Name) and e.func.id in ("set", "list", "sorted", "frozenset") and len(e.args) == 1 and is_all(e.args[0])
+
+    def is_known(e):
+        e = resolve_local(f, e)
+        t = norm(e)
+        if want_known(t):
+            return True
+        return isinstance(e, ast.Call) and isinstance(e.func, ast.Name) and e.func.id in ("set", "list", "sorted", "frozenset") and len(e.args) == 1 and is_known(e.args[0])
+
+    def empty_missing(name):
+        defs = local_defs(f, name)
+        if len(defs) != 1:
+            return False
+        d = defs[0]
+        if isinstance(d, ast.BinOp) and isinstance(d.op, ast.Sub):
+            return is_all(d.left) and is_known(d.right)
+        if isinstance(d, (ast.ListComp, ast.SetComp)) and len(d.generators) == 1:
+            g = d.generators[0]
+            v = norm(g.target)
+            if not (is_all(g.iter) and norm(d.elt) == v and len(g.ifs) == 1):
+                return False
+            c = g.ifs[0]
+            return isinstance(c, ast.Compare) and len(c.ops) == 1 and isinstance(c.ops[0], ast.NotIn) and norm(c.left) == v and is_known(c.comparators[0])
+        if (isinstance(d, ast.List) and not d.elts) or (isinstance(d, ast.Call) and norm(d) in ("set()", "list()")):
+            # filled in a loop over ALL
+            apps = [c for c in walk_no_nested(f.node) if isinstance(c, ast.Call) and isinstance(c.func, ast.Attribute) and c.func.attr in ("append", "add") and norm(c.func.value) == name]
+            if len(apps) != 1 or len(apps[0].args) != 1:
+                return False
+            gs = ff.guards_at(apps[0])
+            loops = [g for g in gs if g.kind == "for"]
+            if len(loops) != 1 or not is_all(loops[0].test):
+                return False
+            v = norm(loops[0].node.target)
+            if norm(apps[0].args[0]) != v:
+                return False
+            others = [g for g in gs if g.kind not in ("for", "except") and any(n is g.node for n in ast.walk(loops[0].node)) and g.node is not loops[0].node]
+            exc = [g for g in gs if g.kind == "except"]
+            if exc:
+                h = exc[0].node
+                tr = next((n for n in ast.walk(loops[0].node) if isinstance(n, ast.Try) and h in n.handlers), None)
+                if tr is None or not h.type or "Unknown" not in norm(h.type):
+                    return False
+                looked = [c for c in ast.walk(ast.Module(body=tr.body, type_ignores=[])) if isinstance(c, ast.Call) and c.args and norm(c.args[0]) == v and "discovery" in norm(c.func)]
+                return len(looked) >= 1 and all(g.kind == "try" for g in others)
+            ifs = [g for g in others if g.kind == "if"]
+            if len(ifs) == 1 and ifs[0].pol:
+                c = ifs[0].test
+                return isinstance(c, ast.Compare) and len(c.ops) == 1 and isinstance(c.ops[0], ast.NotIn) and norm(c.left) == v and is_known(c.comparators[0])
+            return False
+        return False
+
+    for t, pol in facts:
+        # not missing / len(missing) == 0
+        if isinstance(t, ast.Name) and not pol and empty_missing(t.id):
+            return True
+        if isinstance(t, ast.UnaryOp) and isinstance(t.op, ast.Not) and isinstance(t.operand, ast.Name) and pol and empty_missing(t.operand.id):
+            return True
+        if isinstance(t, ast.Compare) and len(t.ops) == 1 and isinstance(t.left, ast.Call) and norm(t.left.func) == "len" and isinstance(t.left.args[0], ast.Name):
+            nm = t.left.args[0].id
+            rhs = t.comparators[0]
+            if isinstance(rhs, ast.Constant) and rhs.value == 0 and ((isinstance(t.ops[0], ast.Eq) and pol) or (isinstance(t.ops[0], (ast.Gt, ast.NotEq)) and not pol)) and empty_missing(nm):
+                return True
+        if pol and isinstance(t, ast.Call) and isinstance(t.func, ast.Name) and t.func.id == "all" and len(t.args) == 1 and isinstance(t.args[0], (ast.GeneratorExp, ast.ListComp)):
+            g = t.args[0].generators[0]
+            c = t.args[0].elt
+            if is_all(g.iter) and isinstance(c, ast.Compare) and len(c.ops) == 1 and isinstance(c.ops[0], ast.In) and norm(c.left) == norm(g.target) and is_known(c.comparators[0]) and not g.ifs:
+                return True
+        if pol and isinstance(t, ast.Compare) and len(t.ops) == 1 and isinstance(t.ops[0], ast.LtE) and is_all(t.left) and is_known(t.comparators[0]):
+            return True
+        if pol and isinstance(t, ast.Call) and isinstance(t.func, ast.Attribute) and t.func.attr == "issubset" and is_all(t.func.value) and len(t.args) == 1 and is_known(t.args[0]):
+            return True
+    return False
+
+
+def _start_gates(ctx, repo):
+    cb = repo.func(ORC, "AgentsMgt._cb_agent_registration")
+    ff = FuncFacts(cb.node)
+    sets = _calls(cb, lambda c: norm(c.func) == "self.all_registered.set")
+    ok = len(sets) == 1 and (f"{cb.params[1]} == 'agent_added'", True) in _facts(ff, sets[0]) and \
+        _subset_gate(cb, sets[0], ff, lambda t: t == "self.initial_dist.agents", lambda t: t == "self.discovery.agents()")
+    ctx.check(ok, "R-START", "all_registered is signalled only when every agent named by the distribution is known to discovery", cb, sets[0] if sets else cb.node,
+              "the test must be by name over initial_dist.agents: with spare agents a count comparison fires before a hosting agent has registered, "
+              "its computations are never deployed and the run never starts")
+    cc = repo.func(ORC, "AgentsMgt._cb_computation_registration")
+    ffc = FuncFacts(cc.node)
+    sets = _calls(cc, lambda c: norm(c.func) == "self.ready_to_run.set")
+    ok = len(sets) == 1 and (f"{cc.params[1]} == 'computation_added'", True) in _facts(ffc, sets[0]) and \
+        _subset_gate(cc, sets[0], ffc, lambda t: t == "self.initial_dist.computations", lambda t: t == "self.discovery.computations()")
+    ctx.check(ok, "R-START", "ready_to_run is signalled only when every computation of the distribution is deployed", cc, sets[0] if sets else cc.node,
+              "running before the last computation is registered loses its start message: it never finishes and the run ends on the timeout")
+    dep = repo.func(ORC, "Orchestrator.deploy_computations")
+    top = list(dep.node.body)
+    i_wait = [i for i, s in enumerate(top) if any(isinstance(c, ast.Call) and norm(c.func) == "self.mgt.all_registered.wait" for c in ast.walk(s))]
+    i_dep = [i for i, s in enumerate(top) if any(isinstance(c, ast.Call) and norm(c.func) == "self._mgt_method" and c.args and isinstance(c.args[0], ast.Constant) and c.args[0].value == "_orchestrator_deploy_computations" for c in ast.walk(s))]
+    ctx.check(len(i_wait) == 1 and len(i_dep) == 1 and i_wait[0] < i_dep[0], "R-START", "deploy_computations waits for all registrations before deploying", dep, top[i_dep[0]] if i_dep else dep.node, "")
+    run = repo.func(ORC, "Orchestrator.run")
+    top = list(run.node.body)
+    i_wait = [i for i, s in enumerate(top) if isinstance(s, ast.Expr) and isinstance(s.value, ast.Call) and norm(s.value.func) == "self.mgt.ready_to_run.wait"]
+    i_run = [i for i, s in enumerate(top) if any(isinstance(c, ast.Call) and norm(c.func) == "self._mgt_method" and c.args and isinstance(c.args[0], ast.Constant) and c.args[0].value == "_orchestrator_run_computations" for c in ast.walk(s))]
+    ctx.check(len(i_wait) >= 1 and len(i_run) == 1 and i_wait[0] < i_run[0], "R-START", "run waits until the agents are ready before asking them to run", run, top[i_run[0]] if i_run else run.node, "")
+    for fn, callpred, what in (("_orchestrator_deploy_computations", lambda c, v: is_self_attr(c.func, "_deploy_computation") and c.args and norm(c.args[0]) == v, "deploys on"),
+                               ("_orchestrator_run_computations", lambda c, v: is_self_attr(c.func, "_send_mgt_msg") and len(c.args) == 2 and norm(c.args[0]) == v and call_name(c.args[1]) == "RunAgentMessage", "sends the run request to")):
+        od = repo.func(ORC, "AgentsMgt." + fn)
+        ctx.touch(od)
+        ffd = FuncFacts(od.node)
+        loops = [l for l in walk_no_nested(od.node) if isinstance(l, ast.For) and norm(l.iter) == "self.discovery.agents()" and isinstance(l.target, ast.Name)]
+        ok = len(loops) == 1
+        if ok:
+            v = loops[0].target.id
+            cs = [c for c in ast.walk(loops[0]) if isinstance(c, ast.Call) and callpred(c, v)]
+            ok = len(cs) == 1
+            if ok:
+                fs = {x for x in _facts(ffd, cs[0]) if v in x[0]}
+                ok = fs <= {(f"{v} == 'orchestrator'", False), (f"{v} != 'orchestrator'", True), (f"{v} == ORCHESTRATOR", False)} and not any(isinstance(n, (ast.Break, ast.Return)) for n in ast.walk(loops[0]))
+        ctx.check(ok, "R-START", f"{fn} {what} every registered agent but the orchestrator", od, loops[0] if loops else od.node,
+                  "an agent skipped here never hosts / starts its computations")
+    rc = repo.func(ORC, "AgentsMgt._orchestrator_run_computations")
+    rm = [c for c in ast.walk(rc.node) if isinstance(c, ast.Call) and call_name(c) == "RunAgentMessage"]
+    ok = len(rm) == 1 and len(rm[0].args) == 1
+    if ok:
+        from ..flow import resolve_local
+        a = rm[0].args[0]
+        if isinstance(a, ast.Name):
+            defs = [n.value for n in ast.walk(rc.node) if isinstance(n, ast.Assign) and norm(n.targets[0]) == a.id]
+            a = defs[0] if len(defs) == 1 else a
+        ok = norm(a).startswith("self.initial_dist.computations_hosted(")
+    ctx.check(ok, "R-START", "each agent is asked to run exactly the computations the distribution places on it", rc, rm[0] if rm else rc.node, "")
+
+
+def _infinity_chain(ctx, repo):
+    from ..flow import bound_arg, resolve_local
+    gm = repo.func(ORC, "AgentsMgt.global_metrics")
+    sc = repo.func("pydcop.dcop.dcop", "DCOP.solution_cost")
+    calls = [c for c in ast.walk(gm.node) if isinstance(c, ast.Call) and norm(c.func) == "self._dcop.solution_cost"]
+    a = bound_arg(calls[0], sc, sc.params[2]) if calls and len(sc.params) > 2 else None
+    ctx.check(a is not None and norm(a) == "self.infinity", "R-INFINITY", "global_metrics -> DCOP.solution_cost(infinity=self.infinity)", gm, calls[0] if calls else gm.node, "")
+    mi = repo.func(ORC, "AgentsMgt.__init__")
+    ws = [n for n in walk_no_nested(mi.node) if isinstance(n, ast.Assign) and is_self_attr(n.targets[0], "infinity")]
+    ctx.check(len(ws) == 1 and norm(ws[0].value) == "infinity" and "infinity" in mi.params and ws[0] in mi.node.body, "R-INFINITY", "AgentsMgt.infinity = constructor parameter", mi, ws[0] if ws else mi.node, "")
+    oi = repo.func(ORC, "Orchestrator.__init__")
+    calls = [c for c in ast.walk(oi.node) if isinstance(c, ast.Call) and call_name(c) == "AgentsMgt"]
+    a = bound_arg(calls[0], mi, "infinity") if calls else None
+    ctx.check(a is not None and norm(a) == "infinity" and "infinity" in oi.params, "R-INFINITY", "Orchestrator(infinity) -> AgentsMgt(infinity)", oi, calls[0] if calls else oi.node,
+              "an argument left to AgentsMgt's default (float('inf')) makes hard constraints expressed with a finite infinity count as soft cost: "
+              "the reported violation/cost differ from dcop.solution_cost(assignment, infinity)")
+    RUN = "pydcop.infrastructure.run"
+    n = 0
+    for fn in ("run_local_thread_dcop", "run_local_process_dcop"):
+        f = repo.func(RUN, fn)
+        calls = [c for c in ast.walk(f.node) if isinstance(c, ast.Call) and call_name(c) == "Orchestrator"]
+        a = bound_arg(calls[0], oi, "infinity") if calls else None
+        n += 1
+        ctx.check(a is not None and norm(a) == "infinity" and "infinity" in f.params, "R-INFINITY", f"{fn}(infinity) -> Orchestrator(infinity)", f, calls[0] if calls else f.node, "")
+    for modname in ("pydcop.commands.solve", "pydcop.commands.run"):
+        m = repo.module(modname)
+        for f in m.functions.values():
+            for c in walk_no_nested(f.node):
+                if isinstance(c, ast.Call) and call_name(c) in ("run_local_thread_dcop", "run_local_process_dcop"):
+                    callee = repo.func(RUN, call_name(c))
+                    a = bound_arg(c, callee, "infinity")
+                    ok = a is not None and norm(a) == "INFINITY"
+                    if ok:
+                        g = [s for s in walk_no_nested(f.node) if isinstance(s, ast.Assign) and any(norm(t) == "INFINITY" for t in s.targets)]
+                        ok = len(g) == 1 and norm(g[0].value) == "args.infinity" and any(isinstance(s, ast.Global) and "INFINITY" in s.names for s in walk_no_nested(f.node))
+                    ctx.check(ok, "R-INFINITY", f"{modname.split('.')[-1]}: --infinity -> {call_name(c)}(infinity)", f, c, "")
+
+
 _O = "pydcop/infrastructure/orchestrator.py"
 _OA = "pydcop/infrastructure/orchestratedagents.py"
 _A = "pydcop/infrastructure/agents.py"
@@ -352,6 +540,15 @@ VARIANTS = [
     ("value_keyed_by_agent", _O, "            self._agent_cycle_values[self._current_cycle][msg.computation] =\\\n                (msg.value, msg.cost)", "            self._agent_cycle_values[self._current_cycle][msg.agent] =\\\n                (msg.value, msg.cost)", "break", "R-VALUE"),
     ("metrics_unpack_swapped", _O, "            violation, cost = self._dcop.solution_cost(dcop_assignment,", "            cost, violation = self._dcop.solution_cost(dcop_assignment,", "break", "R-VALUE"),
     ("value_msg_cost_cycle_swapped", _OA, "            self.agent.name, computation, value, cost, cycle, metrics\n", "            self.agent.name, computation, value, cycle, cost, metrics\n", "break", "R-VALUE"),
+    ("registration_by_count", _O, "            missing = []\n            for agt in self.initial_dist.agents:\n                try:\n                    self.discovery.agent_address(agt)\n                except UnknownAgent:\n                    missing.append(agt)\n            if missing:",
+     "            missing = len(self.initial_dist.agents) - len(self.discovery.agents())\n            if missing > 0:", "break", "R-START"),
+    ("ready_on_any_computation", _O, "            missing = expected - deployed\n            if not missing:", "            missing = expected - deployed\n            if deployed:", "break", "R-START"),
+    ("ready_expected_from_graph_minus_one", _O, "            expected = set(self.initial_dist.computations)\n", "            expected = set(list(self.initial_dist.computations)[1:])\n", "break", "R-START"),
+    ("infinity_not_forwarded", _O, "                             self._own_agt, self, infinity, collector=collector,", "                             self._own_agt, self, collector=collector,", "break", "R-INFINITY"),
+    ("infinity_constant_in_metrics", _O, "            violation, cost = self._dcop.solution_cost(dcop_assignment,\n                                                       self.infinity)", "            violation, cost = self._dcop.solution_cost(dcop_assignment,\n                                                       float('inf'))", "break", "R-"),
+    ("neutral_registration_comprehension", _O, "            missing = []\n            for agt in self.initial_dist.agents:\n                try:\n                    self.discovery.agent_address(agt)\n                except UnknownAgent:\n                    missing.append(agt)\n",
+     "            missing = [agt for agt in self.initial_dist.agents if agt not in self.discovery.agents()]\n", "neutral"),
+    ("neutral_infinity_keyword", _O, "                             self._own_agt, self, infinity, collector=collector,", "                             self._own_agt, self, infinity=infinity, collector=collector,", "neutral"),
     ("neutral_values_iter", _O, "                           for n, s in self._computation_status.items())", "                           for s in self._computation_status.values())", "neutral"),
     ("neutral_log", _O, "            self.logger.info('All DCOP computation have finished : stop')", "            self.logger.info('All computations have finished: stopping agents')", "neutral"),
 ]
